@@ -1527,7 +1527,9 @@ where
                     // Done in order to prevent copying and sorting a large
                     // set of members just to not use them at all because
                     // they don't fit the remaining buffer
-                    self.estimate_feed_capacity(buf.remaining_mut()),
+                    // The tally is written as a u16, so that's a hard limit
+                    self.estimate_feed_capacity(buf.remaining_mut())
+                        .min(usize::from(u16::MAX)),
                     &mut self.choice_buf,
                     &mut self.rng,
                     |member| member != &dst,
